@@ -69,6 +69,7 @@ static LU_stack_t stack;
 static int_t        no_expand;
 static int_t        ndim;
 static LU_space_t whichspace; /* 0 - system malloc'd; 1 - user provided */
+static int_t        nworkers;   /* threads holding work arrays at the tail of the user stack */
 
 /* Macros to manipulate stack */
 #define StackFull(x)         ( x + stack.used >= stack.size )
@@ -96,6 +97,7 @@ void pzgstrf_SetupSpace(void *work, int_t lwork)
         stack.top1 = 0;
         stack.top2 = lwork;
         stack.array = (void *) work;
+        nworkers = 0;
     }
 #if ( MACH==PTHREAD )
     pthread_mutex_init ( &stack.lock, NULL);
@@ -389,6 +391,7 @@ pzgstrf_MemInit(int_t n, int_t annz, superlumt_options_t *superlumt_options,
 	    whichspace = USER;
 	    stack.size = lwork;
 	    stack.top2 = lwork;
+	    nworkers = 0;
 	}
 	
 	lsub  = zexpanders[LSUB].mem  = Lstore->rowind;
@@ -488,6 +491,20 @@ pzgstrf_WorkInit(int_t n, int_t panel_size, int_t **iworkptr, doublecomplex **dw
 	return (isize + dsize + n);
     }
 	
+    if ( whichspace == USER ) {
+#if ( MACH==PTHREAD ) /* Use pthread ... */
+        pthread_mutex_lock( &stack.lock );
+#elif ( MACH==OPENMP ) /* Use openMP ... */
+#pragma omp critical ( STACK_LOCK )
+#endif
+        {
+	    ++nworkers;
+        }
+#if ( MACH==PTHREAD ) /* Use pthread ... */
+        pthread_mutex_unlock( &stack.lock );
+#endif
+    }
+
     return 0;
 }
 
@@ -524,8 +541,14 @@ void pzgstrf_WorkFree(int_t *iwork, doublecomplex *dwork, GlobalLU_t *Glu)
 #pragma omp critical ( STACK_LOCK )
 #endif
         {
-	    stack.used -= (stack.size - stack.top2);
-	    stack.top2 = stack.size;
+	    /* The work arrays of all threads are stacked at the tail; a thread
+	       that finishes early must not hand the tail back while the
+	       others are still running, or a thread that starts late is
+	       given memory that is in use. */
+	    if ( --nworkers == 0 ) {
+		stack.used -= (stack.size - stack.top2);
+		stack.top2 = stack.size;
+	    }
 	    
 	    /*	pzgstrf_StackCompress(Glu);  */
         }
